@@ -275,6 +275,8 @@ def run(tier, seed):
             for part in range(parts):
                 jobs.append(('raw_shard', dict(tier=tier, seed=seed, real=real, k=k, role=role, depth=d, part=part, parts=parts)))
     jobs.append(('reuse_shard', dict(tier=tier, seed=seed)))
+    for s in common.shard_seeds(seed, 4):
+        jobs.append(('reconnect_shard', dict(tier=tier, seed=s + 61, n=(160 if tier == 'quick' else 4000) // 4)))
     stats = common.run_shards_multi(__name__, jobs)
     stats.extra['rawpeer_depth'] = depth
     return common.finish(PID, tier, seed, LEVEL, RULE, stats, t0, ASSUMPTIONS)
@@ -283,6 +285,36 @@ def run(tier, seed):
 def raw_shard(**kw):
     from harness.checks import c10_raw
     return c10_raw.shard(**kw)
+
+
+def reconnect_prop(wrapped):
+    """One client object over several connections (C17's histories with fragmentation on; the previous connection ended with
+    the server half way through a fragmented request or channel element): nothing of an earlier connection is left in the
+    client's reassembly cache once the new connection has settled, and the ids those leftovers had are usable again (the
+    probes on the new connection, which re-use them, are delivered)."""
+    from harness.checks import c17
+    case = wrapped['reconnect']
+    prog, plan = c17.build(case)
+    tr = run_program(prog)
+    vs = []
+    fin = tr.final.get('c', {})
+    if fin.get('frags'):
+        vs.append(common.viol('partial_frame_survives', '%s:partial_frame:after_reconnect' % PID, side='c', sids=fin['frags']))
+    probe_uids = [u for p_ in plan for u in p_['probes']]
+    skip = set(range(len(prog['inter']))) - set(probe_uids)
+    vs += monitors.mon_delivery(tr, PID, require_complete=False, skip_uids=skip)
+    info['nt'] = any(e.get('server_partial') for e in case['endings'])
+    info['classes'] = ['part=reconnect', 'reconnects=%d' % len(case['endings'])]
+    return vs
+
+
+def reconnect_shard(tier, seed, n):
+    from harness.checks import c05
+    common.use_repo()
+    stats = common.Stats()
+    known = common.Known(PID)
+    common.hyp_search(stats, known, c05.reconnect_cases(), reconnect_prop, n, seed, classify=classify, shrink=False)
+    return stats
 
 
 def reuse_shard(**kw):
@@ -296,4 +328,6 @@ def replay(path):
     if case.get('rawpeer'):
         from harness.checks import c10_raw
         return common.report_replay(PID, path, c10_raw.prop(case))
+    if 'reconnect' in case:
+        return common.report_replay(PID, path, reconnect_prop(case))
     return common.report_replay(PID, path, prop(case))
